@@ -15,13 +15,16 @@
    (gen/Gen_util.v); divisions and their zero guards are evaluated in NanQ, so
    "never NaN" is the theorem "the result is Some _". *)
 From Coq Require Import ZArith QArith Qabs List Bool.
-From FV Require Import Common.ListX Common.Batch Common.CMonoid Common.NanQ Common.QVec gen.Gen_util.
+From FV Require Import Common.ListX Common.Batch Common.CMonoid Common.NanQ Common.QVec gen.Gen_util gen.Gen_tree_util.
+From FV Require Export Model.C06_Prims gen.Gen_c06_models gen.Gen_c06_mime gen.Gen_c06_mime_lite gen.Gen_c06_agnostic.
 Import ListNotations.
 Local Open Scope Q_scope.
 
 Definition qm (b : bool) : Q := if b then 1 else 0.
 (* jnp.vdot(loss, mask) with a boolean mask: multiplicative masking *)
 Definition vdot_mask (vals : list Q) (m : list bool) : Q := qsum (map2 (fun v b => v * qm b) vals m).
+(* jnp.vdot(mask, loss): the same sum with the factors in the code's order *)
+Definition vdot_mask_l (m : list bool) (vals : list Q) : Q := qsum (map2 (fun b v => qm b * v) m vals).
 (* jnp.sum(mask) *)
 Definition count (m : list bool) : Q := qsum (map qm m).
 Definition qlen {A} (l : list A) : Q := inject_Z (Z.of_nat (length l)).
@@ -43,7 +46,7 @@ Definition scalar_loss (vals : list Q) (m : option (list bool)) (r : option Q) :
 Definition sbatch := (list Q * option (list bool))%type.
 Definition avg_step (acc : Q * Q) (b : sbatch) : Q * Q :=
   match snd b with
-  | Some m => (fst acc + vdot_mask (fst b) m, snd acc + count m)
+  | Some m => (fst acc + vdot_mask_l m (fst b), snd acc + count m)
   | None => (fst acc + qsum (fst b), snd acc + qlen (fst b))
   end.
 Definition avg_loss (batches : list sbatch) (r : option Q) : NanQ.t :=
@@ -89,13 +92,48 @@ Definition domain_step (nd : nat) (r : option Q) (st : list Q * list Q) (b : dba
 Definition domain_metrics (nd : nat) (r : option Q) (batches : list dbatch) : list Q * list Q :=
   fold_left (domain_step nd r) batches (repeat 0 nd, repeat 0 nd).
 
+(* ---------- the same quantities computed by the TRANSLATED kernels ---------- *)
+(* gen/Gen_c06_models.v (models.grad.scalar_loss, _evaluate_average_loss_step,
+   _finalize_average_loss), gen/Gen_c06_mime.v (client_step of
+   create_grads_for_each_client, the server-gradient normalisation of mime.apply),
+   gen/Gen_c06_mime_lite.v, gen/Gen_c06_agnostic.v (client_step of
+   create_domain_metrics_for_each_client) are regenerated from /repo on every run.
+   These t_* functions are what the correspondence evaluates; Proofs/C06_Proofs.v
+   proves t_X = X for the specification functions above (C06_translated_kernels). *)
+Definition inj (l : list Q) : list NanQ.t := map Some l.
+Definition injm (m : list bool) : list NanQ.t := map (fun b => Some (qm b)) m.
+
+Definition t_scalar_loss (vals : list Q) (m : option (list bool)) (r : option Q) : NanQ.t :=
+  gen_scalar_loss (inj vals) (option_map injm m) (option_map Some r).
+Definition t_avg_step (st : NanQ.t * NanQ.t) (b : sbatch) : NanQ.t * NanQ.t :=
+  gen_avg_step (inj (fst b)) (option_map injm (snd b)) (fst st) (snd st).
+Definition t_avg_loss (batches : list sbatch) (r : option Q) : NanQ.t :=
+  let st := fold_left t_avg_step batches (NanQ.zero, NanQ.zero) in
+  gen_finalize_avg (fst st) (snd st) (option_map Some r).
+(* one gradient coordinate = a one-leaf pytree *)
+Definition t_mime_step (dr : option Q) (st : list NanQ.t * NanQ.t) (b : mbatch) : list NanQ.t * NanQ.t :=
+  gen_mime_client_step [t_scalar_loss (fst b) (Some (snd b)) dr] (injm (snd b)) (fst st) (snd st).
+Definition t_mime_client (dr : option Q) (batches : list mbatch) : list NanQ.t * NanQ.t :=
+  fold_left (t_mime_step dr) batches ([NanQ.zero], NanQ.zero).
+Definition tpair_add (a b : list NanQ.t * NanQ.t) : list NanQ.t * NanQ.t :=
+  (map2 NanQ.add (fst a) (fst b), NanQ.add (snd a) (snd b)).
+Definition tpair_sum (l : list (list NanQ.t * NanQ.t)) : list NanQ.t * NanQ.t :=
+  match l with [] => ([NanQ.zero], NanQ.zero) | x :: r => fold_left tpair_add r x end.
+Definition t_mime_fullbatch (lite : bool) (dr : option Q) (clients : list (list mbatch)) : NanQ.t :=
+  let tot := tpair_sum (map (t_mime_client dr) clients) in
+  nth 0 ((if lite then gen_mime_lite_server_grads else gen_mime_server_grads) (fst tot) (snd tot)) None.
+Definition t_domain_step (nd : nat) (r : option Q) (st : list NanQ.t * list NanQ.t) (b : dbatch) :=
+  gen_domain_step (inj (fst (fst b))) (injm (snd (fst b))) (snd b) nd (option_map Some r) (fst st) (snd st).
+Definition t_domain_metrics (nd : nat) (r : option Q) (batches : list dbatch) : list NanQ.t * list NanQ.t :=
+  fold_left (t_domain_step nd r) batches (repeat NanQ.zero nd, repeat NanQ.zero nd).
+
 (* ---------- correspondence ---------- *)
 (* a geometry of one dataset: the per-row values of one quantity (loss, or one
    gradient coordinate) arranged in batches *)
 Inductive C06_case :=
 | KGrad (vals : list Q) (m : option (list bool)) (r : option Q)          (* fedjax.grad / model_grad, one coordinate *)
 | KAvg (batches : list sbatch) (r : option Q)                            (* evaluate_average_loss / AverageLossEvaluator / HypCluster *)
-| KMime (dr : option Q) (clients : list (list mbatch))                   (* Mime full-batch gradient, one coordinate *)
+| KMime (lite : bool) (dr : option Q) (clients : list (list mbatch))     (* Mime / MimeLite full-batch gradient, one coordinate *)
 | KMimeClient (dr : option Q) (batches : list mbatch)                    (* client output (grads_sum, num_sum), one coordinate *)
 | KDomain (nd : nat) (r : option Q) (batches : list dbatch).             (* (domain_loss, domain_num) *)
 
@@ -105,16 +143,23 @@ Definition tol : Q := 1 # 50000.
 Definition qclose (x y : Q) : bool := Qle_bool (Qabs (x - y)) (tol * (1 + Qabs y)).
 Definition nclose (x : NanQ.t) (y : Q) : bool := match x with Some x => qclose x y | None => false end.
 
+Fixpoint all2 {A B} (f : A -> B -> bool) (l1 : list A) (l2 : list B) : bool :=
+  match l1, l2 with
+  | [], [] => true
+  | x :: l1', y :: l2' => f x y && all2 f l1' l2'
+  | _, _ => false
+  end.
+
 Definition C06_agree (c : C06_case) (o : C06_obs) : bool :=
   match c, o with
-  | KGrad vals m r, [y] => nclose (scalar_loss vals m r) y
-  | KAvg bs r, y :: ys => forallb (nclose (avg_loss bs r)) (y :: ys)
-  | KMime dr cl, [y] => nclose (mime_fullbatch dr cl) y
+  | KGrad vals m r, [y] => nclose (t_scalar_loss vals m r) y
+  | KAvg bs r, y :: ys => forallb (nclose (t_avg_loss bs r)) (y :: ys)
+  | KMime lite dr cl, [y] => nclose (t_mime_fullbatch lite dr cl) y
   | KMimeClient dr bs, [g; n] =>
-      let st := mime_client dr bs in nclose (fst st) g && NanQ.same (snd st) (Some n)
+      let st := t_mime_client dr bs in nclose (nth 0 (fst st) None) g && NanQ.same (snd st) (Some n)
   | KDomain nd r bs, ys =>
-      let st := domain_metrics nd r bs in
-      list_beq qclose (fst st) (firstn nd ys) && list_beq Qeq_bool (snd st) (skipn nd ys) &&
+      let st := t_domain_metrics nd r bs in
+      all2 nclose (fst st) (firstn nd ys) && all2 (fun x y => NanQ.same x (Some y)) (snd st) (skipn nd ys) &&
       Nat.eqb (length ys) (nd + nd)
   | _, _ => false
   end.
